@@ -112,6 +112,11 @@ pub struct Send { pub state: SendState, pub pending: SendBuffer, pub max_data: u
 impl Send {
     #[verifier::external_body] pub fn reset(&mut self) ensures final(self).state == SendState::ResetSent, final(self).pending == old(self).pending { unimplemented!() }
     pub fn is_reset(&self) -> (r: bool) ensures r == (self.state is ResetSent) { matches!(self.state, SendState::ResetSent) }
+    /// clauses of Send::write proved on the real function in unit send_stream: at most `limit` bytes are taken, errors change nothing
+    #[verifier::external_body] pub fn write<B: BytesSource>(&mut self, source: &mut B, limit: u64) -> (res: Result<Written, WriteError>)
+        ensures match res { Ok(w) => w.bytes <= limit, Err(_) => *final(self) == *old(self) },
+            final(self).priority == old(self).priority, final(self).connection_blocked == old(self).connection_blocked
+    { unimplemented!() }
     /// `pending.has_unsent_data() || fin_pending`
     #[verifier::external_body] pub fn is_pending(&self) -> (r: bool) { unimplemented!() }
     /// clauses of Send::increase_max_data proved on the real function in unit send_stream
@@ -121,6 +126,9 @@ impl Send {
     { unimplemented!() }
 }
 pub struct ClosedStream { pub _private: () }
+pub trait BytesSource { }
+pub struct Written { pub bytes: usize, pub chunks: usize }
+pub enum WriteError { Blocked, Stopped(VarInt), ClosedStream }
 pub struct Retransmits { pub reset_stream: Vec<(super::code::StreamId, VarInt)> }
 /// what the map holds for `id` once a lazily created Send has been materialised (None: no such stream)
 pub uninterp spec fn send_abs(m: FxHashMap<super::code::StreamId, Option<Box<Send>>>, id: super::code::StreamId) -> Option<Send>;
@@ -699,6 +707,23 @@ impl StreamsState {
 //@ end
 
 impl<'a> SendStream<'a> {
+//@ extract quinn-proto/src/connection/streams/mod.rs :: impl SendStream<'a>::fn write_source
+//@ props C05
+//@ ret res
+//@ replace ws:self .state .send .get_mut(&self.id) .map(get_or_insert_send(max_send_data)) => send_entry(&mut self.state.send, self.id, max_send_data)
+//@ contract
+        requires old(self).state.data_sent <= old(self).state.max_data,
+        ensures
+            final(self).state.max_data == old(self).state.max_data, final(self).state.send_window == old(self).state.send_window,
+            match res {
+                // what the application's write is charged: exactly the bytes taken, never past the peer's connection limit and never past the
+                // local bound on unacknowledged data
+                Ok(w) => final(self).state.data_sent == old(self).state.data_sent + w.bytes && final(self).state.data_sent <= old(self).state.max_data
+                    && final(self).state.unacked_data == old(self).state.unacked_data + w.bytes
+                    && (w.bytes > 0 ==> final(self).state.unacked_data <= old(self).state.send_window),
+                Err(_) => final(self).state.data_sent == old(self).state.data_sent && final(self).state.unacked_data == old(self).state.unacked_data,
+            }
+//@ end
 //@ extract quinn-proto/src/connection/streams/mod.rs :: impl SendStream<'a>::fn reset
 //@ props C05 C11
 //@ ret res
